@@ -13,6 +13,7 @@ import tlc    # noqa: E402
 
 RE_REACHED = re.compile(r'<<"REACHED", (\d+), (\d+), (\d+)>>')
 RE_UNSAFE = re.compile(r'<<"UNSAFE", (\d+), (\d+)>>')
+RE_OVER = re.compile(r'<<"OVERLIMIT", (\d+), (\d+)>>')
 
 
 def tla_const(v):
@@ -106,12 +107,15 @@ def validate_groups(work, trace_module, groups, invariant="TraceInv", timeout=90
         return name, r
     reached, problems = {}, []
     unsafe = {}
+    over = {}
     with cf.ThreadPoolExecutor(8) as ex:
         for name, r in ex.map(one, jobs):
             for a, b, c in RE_REACHED.findall(r.out):
                 reached[int(a)] = (int(b), int(c))
             for a, b in RE_UNSAFE.findall(r.out):
                 unsafe.setdefault(int(a), set()).add(int(b))
+            for a, b in RE_OVER.findall(r.out):
+                over.setdefault(int(a), set()).add(int(b))
             if r.violated:
                 m = re.search(r"tid = (\d+)", r.out[r.out.find("Error:"):])
                 problems.append((name, "invariant " + r.violated, tlc.counterexample(r.out, 2500)))
@@ -119,6 +123,7 @@ def validate_groups(work, trace_module, groups, invariant="TraceInv", timeout=90
                 problems.append((name, "error", r.error[:1500]))
     shutil.rmtree(d, ignore_errors=True)
     validate_groups.unsafe = unsafe
+    validate_groups.over = over
     return reached, problems
 
 
@@ -158,6 +163,14 @@ def node_engine(res, work, *, node, trace_module, cfgs, consts_of, adapt, attrib
                     what="%s %s schedule '%s': at event #%d %s the completion callback of an element fires while it is "
                          "still in flight" % (node, json.dumps(r["cfg"], sort_keys=True), " ".join(r["schedule"]), lidx, evt),
                     signature=dict(kind="premature-callback", node=node, event=evt["ev"]),
+                    replay=dict(engine=res.name, cfg=r["cfg"], schedule=r["schedule"], at=lidx, trace=t[:lidx + 1])))
+        for lidx in sorted(getattr(validate_groups, "over", {}).get(i, ())):
+            if lidx < got[0] or got[0] >= got[1]:
+                res.violations.append(dict(
+                    property="C03", engine=res.name, clause="Parallelism",
+                    what="%s %s schedule '%s': at event #%d more functions are being evaluated than the documented parallelism"
+                         % (node, json.dumps(r["cfg"], sort_keys=True), " ".join(r["schedule"]), lidx),
+                    signature=dict(kind="parallelism-exceeded", node=node),
                     replay=dict(engine=res.name, cfg=r["cfg"], schedule=r["schedule"], at=lidx, trace=t[:lidx + 1])))
         if got[0] >= got[1]:
             res.accepted += 1
@@ -213,3 +226,44 @@ def seconds(interval):
     import re as _re
     m = _re.fullmatch(r"\s*(\d+)\s*([a-zA-Z]+)\s*", interval)
     return int(int(m.group(1)) * units[m.group(2).lower()])
+
+
+def replay_node(engine, v, driver="async_driver.py"):
+    """re-execute exactly the scenario of a violation on the current tree and validate it again"""
+    rp = v.get("replay") or {}
+    cfg, sched = rp.get("cfg"), rp.get("schedule")
+    if cfg is None or sched is None:
+        print("this violation carries no replayable scenario:", json.dumps(rp)[:300])
+        return 2
+    work = os.path.join(core.WORK, "replay_%d" % os.getpid())
+    os.makedirs(work, exist_ok=True)
+    try:
+        ex = os.path.join(work, "explicit.json")
+        with open(ex, "w") as f:
+            json.dump([[cfg, sched]], f)
+        out = os.path.join(work, "runs")
+        rc, so, se = core.run_driver(driver, ["--cfgs", "[]", "--out", out, "--explicit", ex, "--limit", 0, "--random", 0])
+        if rc != 0:
+            print("driver failed:", se[-800:])
+            return 2
+        with open(os.path.join(out, "runs.json")) as f:
+            runs = json.load(f)
+        r = runs[0]
+        t = engine.adapt(r)
+        reached, problems = validate_groups(work, engine.TRACE_MODULE, [("replay", engine.consts_of(cfg), [{"id": 1, "ev": t}])])
+        got = reached.get(1)
+        for name, kind, detail in problems:
+            print("REPLAY: %s %s" % (kind, detail[:600]))
+        if got is None or got[0] < got[1] or problems:
+            at = got[0] if got else 0
+            print("REPLAY: schedule '%s' on %s is rejected at event #%s: %s" % (" ".join(sched), json.dumps(cfg), at,
+                                                                                  t[at - 1] if got and 0 < at <= len(t) else "?"))
+            for e in t[max(0, at - 6):at + 1]:
+                print("   ", e)
+            print("VIOLATION property=%s replay=%s" % (v.get("property"), "(replayed)"))
+            return 1
+        print("REPLAY: schedule '%s' on %s is accepted by %s on the current tree (%d events)" % (
+            " ".join(sched), json.dumps(cfg), engine.TRACE_MODULE, len(t)))
+        return 0
+    finally:
+        shutil.rmtree(work, ignore_errors=True)
